@@ -28,6 +28,13 @@ func (p *PgSQLDataEncoderProcessor) ID() string {
 // OnColumn encode binary value to text and back. Should be before and after tokenizer processor
 func (p *PgSQLDataEncoderProcessor) OnColumn(ctx context.Context, data []byte) (context.Context, []byte, error) {
 	if len(data) == 0 {
+		// an empty value that was only decoded (not decrypted) of a column without declared data type goes back
+		// in the same form as it came from the database (for example "\\x" of an empty bytea)
+		if encodedValue, ok := base.GetEncodedValueFromContext(ctx); ok && !base.IsDecryptedFromContext(ctx) {
+			if setting, ok := encryptor.EncryptionSettingFromContext(ctx); !ok || setting.GetDBDataTypeID() == 0 {
+				return ctx, encodedValue, nil
+			}
+		}
 		return ctx, data, nil
 	}
 
